@@ -17,6 +17,25 @@ def len_hook(ev, name, node):
     return None
 
 
+def size_aliases(fn):
+    """locals that are, for the whole function, just the length of a sequence: ``n = len(x)`` assigned once, x never
+    re-bound - read as len(x)"""
+    out = {}
+    if fn is None or not hasattr(fn, "body"):
+        return out
+    stores = {}
+    for n in ast.walk(fn):
+        if isinstance(n, ast.Name) and isinstance(n.ctx, (ast.Store, ast.Del)):
+            stores[n.id] = stores.get(n.id, 0) + 1
+    for n in ast.walk(fn):
+        if isinstance(n, ast.Assign) and len(n.targets) == 1 and isinstance(n.targets[0], ast.Name) \
+                and isinstance(n.value, ast.Call) and unparse(n.value.func) == "len" and len(n.value.args) == 1 \
+                and isinstance(n.value.args[0], ast.Name) and stores.get(n.targets[0].id) == 1 \
+                and stores.get(n.value.args[0].id, 0) == 0:
+            out[n.targets[0].id] = RF.sym("len(%s)" % n.value.args[0].id)
+    return out
+
+
 def range_bounds(call, env=None):
     """(lo, hi) inclusive RF bounds of range(...) with step 1, or None."""
     if not (isinstance(call, ast.Call) and unparse(call.func) in ("range", "xrange")):
@@ -33,6 +52,8 @@ def range_bounds(call, env=None):
 def enclosing_ranges(node, stop, env=None):
     """[(var, lo, hi)] from the innermost enclosing comprehension/for outwards (inner first)."""
     out = []
+    if env is None:
+        env = size_aliases(stop)
     cur = node
     p = getattr(cur, "_parent", None)
     while p is not None and cur is not stop:
@@ -73,6 +94,8 @@ def extreme(expr, ranges, want_max):
 def bound_subscript(sub, stop, env=None):
     """(min, max) RF of a subscript index (handles abs(a - b) as max of both differences)."""
     idx = sub.slice
+    if env is None:
+        env = size_aliases(stop)
     ranges = enclosing_ranges(sub, stop, env)
     ev = Evaluator(env or {}, call_hook=len_hook)
     if isinstance(idx, ast.Call) and unparse(idx.func) == "abs" and len(idx.args) == 1:
